@@ -68,6 +68,10 @@ def run(ctx):
     ctx.mod(DEX)
     eng = Engine(ctx.repo)
     core(ctx, eng)
+    # getter; recorder; getter sequences: an instance memo of a record container must be dropped by every recorder (agstatic/memo.py)
+    from .. import memo
+    for _c in ['FieldAnalysis', 'ClassAnalysis']:
+        memo.check_class(ctx, ctx.mod(ANALYSIS), _c)
     ctx.assume("DEX.get_encoded_field_descriptor(c, n, t) returns an EncodedField whose class name is c (its cache key is class+name+descriptor)")
     ctx.note("not decided: that the xref sets equal the field instructions of concrete DEX files (run-time data)")
     if ctx.tier == "thorough":
